@@ -133,6 +133,14 @@ Theorem C14_builtin_atlas_length : forall b,
   In b fonts -> bf_rawlen b = bytes_per_row (f_iw (bf_font b)) * f_ih (bf_font b).
 Proof. exact builtin_atlas_length. Qed.
 
+(* the atlas is a whole number of cells wide and has exactly the rows the mapping needs *)
+Theorem C14_builtin_atlas_rows_exact : forall b,
+  In b fonts ->
+  let f := bf_font b in
+  let gpr := f_iw f / f_cw f in
+  f_iw f = gpr * f_cw f /\ f_ih f = ((Z.of_nat (length (builtin_chars b)) + gpr - 1) / gpr) * f_ch f.
+Proof. exact builtin_atlas_rows. Qed.
+
 Theorem C14_builtin_font_wf : forall b, In b fonts -> font_wf (bf_font b) /\ f_sp (bf_font b) = 0.
 Proof. exact builtin_font_wf. Qed.
 
